@@ -1345,6 +1345,87 @@ fn run_case(s: &mut Session, ops: &[Op], nums: &[(u32, String)], tab_twin: char,
     }
 }
 
+/// A text whose `Into<Cow<str>>` conversion lets ANOTHER thread call set_tab_width on a clone of
+/// the bar and waits a bounded time for it (as seeded/C16-5/demo.rs does).  On the code as it is
+/// the conversion runs inside the call's critical section, so the other thread blocks until the
+/// text is stored and its set_tab_width re-expands it; if the width were read before and the
+/// text stored after the conversion (two sections), the other thread gets in between and the
+/// text keeps the stale width.  Either way the outcome does not depend on timing on the
+/// unchanged code: every linearisation ends with the new width everywhere.
+struct RacingText {
+    pb: ProgressBar,
+    text: String,
+    new_tw: usize,
+    worker: std::sync::Arc<std::sync::Mutex<Option<std::thread::JoinHandle<()>>>>,
+}
+impl From<RacingText> for std::borrow::Cow<'static, str> {
+    fn from(t: RacingText) -> Self {
+        let (tx, rx) = std::sync::mpsc::channel();
+        let pb = t.pb.clone();
+        let w = t.new_tw;
+        let h = std::thread::spawn(move || {
+            pb.set_tab_width(w);
+            let _ = tx.send(());
+        });
+        *t.worker.lock().unwrap() = Some(h);
+        let _ = rx.recv_timeout(std::time::Duration::from_millis(250));
+        std::borrow::Cow::Owned(t.text)
+    }
+}
+
+/// the two-thread stories: set_message / set_prefix racing with set_tab_width (oracle only: the
+/// model is sequential; C16_calls_atomic is the statement that ties its atomic steps to the source)
+fn concurrency_stories(s: &mut Session) {
+    for (which, text, tw0, tw1) in [("set_message", "a\tb", 8usize, 2usize), ("set_prefix", "\tp\t", 8, 0), ("set_message", "\t\t", 3, 5), ("set_prefix", "x\ty", 1, 4)] {
+        let desc = format!("two threads: tab width {tw0}; {which}(text {text:?} whose Into<Cow<str>> starts a thread calling set_tab_width({tw1}) and waits <= 250 ms); join; set the other text; tick");
+        s.count("story:set-text-racing-with-set_tab_width");
+        let spy = Spy::new(200, u16::MAX);
+        let r = catch(|| {
+            let pb = ProgressBar::with_draw_target(None, ProgressDrawTarget::term_like(Box::new(spy.clone())));
+            pb.set_style(ProgressStyle::with_template("{prefix}|{msg}|\t.").unwrap());
+            pb.set_tab_width(tw0);
+            let worker = std::sync::Arc::new(std::sync::Mutex::new(None));
+            let racing = RacingText { pb: pb.clone(), text: text.to_string(), new_tw: tw1, worker: worker.clone() };
+            if which == "set_message" {
+                pb.set_message(racing);
+            } else {
+                pb.set_prefix(racing);
+            }
+            let h = worker.lock().unwrap().take().expect("worker started");
+            h.join().expect("worker joined");
+            // both calls have returned: the bar's width is tw1 in every linearisation
+            let (msg, prefix) = if which == "set_message" {
+                pb.set_prefix("q\tr");
+                (text.to_string(), "q\tr".to_string())
+            } else {
+                pb.set_message("q\tr");
+                ("q\tr".to_string(), text.to_string())
+            };
+            spy.take();
+            pb.tick();
+            let line = spy.take().into_iter().find_map(|t| if let TOp::Str(x) = t { Some(x) } else { None }).unwrap_or_default();
+            let got = (pb.message(), pb.prefix(), line);
+            std::mem::forget(pb);
+            (got, msg, prefix)
+        });
+        match r {
+            Err(e) => s.fail("panic", format!("two-thread story panicked: {e}"), desc.clone()),
+            Ok(((gm, gp, line), msg, prefix)) => {
+                let (wm, wp) = (expand(&msg, tw1), expand(&prefix, tw1));
+                let wline = format!("{wp}|{wm}|{}.", expand("\t", tw1));
+                if gm != wm || gp != wp || line != wline {
+                    s.fail(
+                        "stale-width-after-concurrent-set-tab-width",
+                        format!("message() = {gm:?}, prefix() = {gp:?}, frame {line:?}; with the one tab width {tw1} every linearisation gives {wm:?}, {wp:?}, {wline:?}"),
+                        desc.clone(),
+                    );
+                }
+            }
+        }
+        s.oracle_only(desc, true);
+    }
+}
+
 fn lit(x: &str) -> T {
     T::Lit(x.to_string())
 }
@@ -1577,6 +1658,8 @@ fn main() {
     for ops in &corpus {
         run_case(&mut s, ops, &nums, tab_twin, true, 40);
     }
+    // ---------------------------------------------------------------- two threads
+    concurrency_stories(&mut s);
     // ---------------------------------------------------------------- random
     let n = if a.thorough { 20_000 } else if a.extended { 16_000 } else { 2_000 };
     for _ in 0..n {
